@@ -4,7 +4,7 @@
 From Coq Require Import List NArith ZArith Bool.
 From BE Require Import Model.GoTypes Model.GoVal Model.Parsers Model.Index Model.RangeIdx
                        Proofs.RangeIdxProof Proofs.RangeHolderProof.
-From BE Require Gen.IdsGen Proofs.IndexCorrect Proofs.HoldersBuildInv Proofs.IndexCorrectHolders Proofs.NonVacuous.
+From BE Require Gen.IdsGen Proofs.IndexCorrect Proofs.HoldersBuildInv Proofs.IndexCorrectHolders Proofs.NonVacuous Model.Spec Proofs.SpecBridge Proofs.SpecBridgeHolders.
 Import ListNotations.
 Local Open Scope Z_scope.
 
@@ -67,6 +67,29 @@ Theorem C06_range_hit_rule_op : forall e x, e_op e = OpGT \/ e_op e = OpLT \/ e_
    exists l r, parse_range (e_op e) true (e_val e) = POk (l, r) /\ l <= x < r).
 Proof. exact IndexCorrectHolders.range_hit_op. Qed.
 
+(* AGAINST THE SPECIFICATION (Model/Spec.v) for builders with any mix of containers (Proofs/SpecBridgeHolders.v): the
+   reported (document, position, size) triples are a permutation of sat_hits over the configured field table.
+   doc_good' = values are Go values the model represents exactly AND lie in the specification's domain
+   (doc_dom, a boolean: keywords non-empty; a range expression's interval representable, i.e. not `> MaxInt64`,
+   `< MinInt64`, between [MaxInt64, MaxInt64] -- in particular every bound of magnitude <= 2^62);
+   asg_good' = assigned values are supported; asg_dom_for = no assigned integer is MaxInt64 on a field with a `>`. *)
+Theorem C06_hits_are_the_specifications_any_container : forall kind pol thr parsers cfgl st0 ds st os q,
+  HoldersBuildInv.config_fields (new_builder kind pol thr parsers) cfgl = Some st0 ->
+  add_documents false st0 ds = (st, os) -> Forall (eq AddOk) os -> NoDup (map d_id ds) ->
+  (forall d cj, In d ds -> In cj (d_conjs d) -> NoDup (map fst cj)) ->
+  (forall d, In d ds -> SpecBridgeHolders.doc_good' parsers (HoldersBuildInv.cfg_of cfgl) d) ->
+  (pol <> PolSkip \/ forall d cj, In d ds -> In cj (d_conjs d) ->
+       Spec.conj_sem (SpecBridgeHolders.cfg_fields parsers cfgl) parsers cj <> None) ->
+  ((- two64 < thr)%Z \/ forall d cj, In d ds -> In cj (d_conjs d) -> HoldersBuildInv.conj_rwf thr (HoldersBuildInv.cfg_of cfgl) cj) ->
+  NoDup (map fst q) -> SpecBridgeHolders.asg_good' parsers cfgl q ->
+  SpecBridgeHolders.asg_dom_for (HoldersBuildInv.cfg_of cfgl) ds q ->
+  (kind = IKGroups -> forall f v, In (f, v) q -> HoldersBuildInv.cfg_of cfgl f = CAc -> IndexCorrectHolders.nil_slice_wf v) ->
+  exists hits spec_hits,
+    retrieve_hits (build_index st) q = ROk hits /\
+    Spec.sat_hits (SpecBridgeHolders.cfg_fields parsers cfgl) parsers pol Spec.pl_docok ds q = Some spec_hits /\
+    Permutation.Permutation (map (fun h : hitrec => SpecBridge.triple (snd h)) hits) spec_hits.
+Proof. exact SpecBridgeHolders.index_sat_hits_holders. Qed.
+
 (* the hypotheses of the end-to-end theorem are met by a concrete builder with a pattern and a range field,
    three documents (kept interval, expanded between, `in`, include and exclude keywords) and two assignments,
    for which the concrete retrievals return [12] and [10] *)
@@ -80,6 +103,17 @@ Example C06_nonvacuous :
   [(-1000, 0, [3%N]); (0, 5, [1%N; 3%N]); (5, 7, [1%N; 2%N; 3%N]); (7, 10, [1%N; 2%N]); (10, 20, [2%N]); (20, 1000, [])].
 Proof. vm_compute. reflexivity. Qed.
 
+(* non-vacuity of the specification-level theorem: every hypothesis discharged on a concrete builder with pattern,
+   range and default fields, both index kinds *)
+Example C06_spec_nonvacuous : forall k st os,
+  add_documents false (SpecBridgeHolders.BridgeWitnessH.st0 k) SpecBridgeHolders.BridgeWitnessH.ds = (st, os) ->
+  exists hits spec_hits,
+    retrieve_hits (build_index st) IndexCorrectHolders.WitnessH.q1 = ROk hits /\
+    Spec.sat_hits SpecBridgeHolders.BridgeWitnessH.fields IndexCorrectHolders.WitnessH.ps PolError Spec.pl_docok
+      SpecBridgeHolders.BridgeWitnessH.ds IndexCorrectHolders.WitnessH.q1 = Some spec_hits /\
+    Permutation.Permutation (map (fun h : hitrec => SpecBridge.triple (snd h)) hits) spec_hits.
+Proof. exact SpecBridgeHolders.BridgeWitnessH.sat_hits_instance. Qed.
+
 Print Assumptions C06_rangeidx_history.
 Print Assumptions C06_any_threshold_exact.
 Print Assumptions C06_gt_interval.
@@ -89,3 +123,4 @@ Print Assumptions C06_any_container_index_exact.
 Print Assumptions C06_range_hit_rule.
 Print Assumptions C06_range_hit_rule_in.
 Print Assumptions C06_range_hit_rule_op.
+Print Assumptions C06_hits_are_the_specifications_any_container.
